@@ -135,7 +135,7 @@ func mRun(r *engine.Run, mode string) int {
 	}
 	groups := map[string]groupRec{}
 	n := 0
-	engine.Map("merge", cases, func(i int, c json.RawMessage, res *engine.Result) {
+	r.MapBudget("merge", cases, func(i int, c json.RawMessage, res *engine.Result) {
 		if !r.Add("merge", c, res) {
 			return
 		}
